@@ -412,7 +412,25 @@ def make_callback(env, op, ctor, case, role, rec, counters):
                 return vs
         return vs
 
+    form = cb.get("form")
+    if form:
+        from harness import lib_c19forms as forms
+
+        return forms.make_form(form, fun, cb_nargs(case, role))
     return fun
+
+
+def cb_nargs(case, role):
+    """number of arguments ONNX prescribes for the callback in `role` (0 when nothing is prescribed)"""
+    pres = prescription(case)
+    return len(pres[role]) if pres is not None and role in pres else 0
+
+
+def form_accepts(case, role):
+    """Model-free: does Python's own call with the prescribed number of arguments enter a callable of this form?"""
+    from harness import lib_c19forms as forms
+
+    return forms.python_accepts(case["cbs"][role]["form"], cb_nargs(case, role))
 
 
 class _OneShot:
@@ -590,7 +608,19 @@ def run_real(env: Env, case, steps=()):
         try:
             with warnings.catch_warnings(), amb:
                 warnings.simplefilter("ignore")
-                if ctor == "if_":
+                if case.get("kwcall"):  # every parameter by keyword
+                    if ctor == "if_":
+                        outs = f(cond=given["cond"], else_branch=cbs["else_branch"], then_branch=cbs["then_branch"])
+                    elif ctor == "loop":
+                        outs = f(body=cbs["body"], v_initial=operands["v_initial"], cond=given.get("cond"), M=given.get("M"))
+                    elif ctor == "scan":
+                        outs = f(body=cbs["body"], num_scan_inputs=case["ints"]["num_scan_inputs"],
+                                 initial_state_and_scan_inputs=operands["initial_state_and_scan_inputs"],
+                                 scan_input_axes=case.get("axes"), **case.get("scan_attrs", {}))
+                    else:
+                        outs = f(body=cbs["body"], additional_inputs=operands["additional_inputs"],
+                                 input_sequence=singles["input_sequence"])
+                elif ctor == "if_":
                     outs = f(given["cond"], then_branch=cbs["then_branch"], else_branch=cbs["else_branch"])
                 elif ctor == "loop":
                     outs = f(given.get("M"), given.get("cond"), v_initial=operands["v_initial"], body=cbs["body"])
@@ -886,10 +916,28 @@ def judge(case, obs):
             bad.append((f"{ctor}:out-count{tag}", f"callback returned {case['cbs'][src]['n']} Vars, node created with out_variadic={got_n[-1]} (expected {want_n})"))
         elif res[0] == "ok" and res[1] != want_n:
             bad.append((f"{ctor}:out-count{tag}", f"callback returned {case['cbs'][src]['n']} Vars, constructor returned {res[1]} outputs (expected {want_n})"))
+    # -- callable forms: what Python's call with the prescribed arguments accepts must be accepted
+    if pres is not None and all_good(case) and res[0] == "err" and obs["stage"] == "pre":
+        for role in order:
+            fm = case["cbs"][role].get("form")
+            if fm and obs["counts_ctor"].get(role, 0) == 0 and form_accepts(case, role):
+                bad.append((f"{ctor}:callback-form:{fm}:rejected:{res[1]}",
+                            f"{ctor}: a valid {role} of the form `{fm}` (Python accepts the call with the {cb_nargs(case, role)} prescribed arguments) was rejected with {res[1]}: {res[2]}; invoked 0 times"))
+                break
     # -- malformed callbacks
     if pres is not None and not all_good(case):
         first_bad = next((r for r in order if case["cbs"][r]["beh"] != "vars"), None)
         beh = case["cbs"][first_bad]["beh"]
+        if beh == "badArity":  # Python's call itself rejects the callable: TypeError, the body never entered
+            fm = case["cbs"][first_bad].get("form")
+            if form_accepts(case, first_bad):
+                pass  # (not a rejecting form for this arity: nothing to judge)
+            else:
+                if res[0] != "err" or res[1] != "TypeError":
+                    got = res[1] if res[0] == "err" else "no exception"
+                    bad.append((f"{ctor}:callback-form:{fm}:{got}", f"{first_bad} of the form `{fm}` cannot take the prescribed arguments: expected TypeError, got {got}"))
+                if obs["counts_ctor"].get(first_bad, 0) != 0:
+                    bad.append((f"{ctor}:callback-form:{fm}:entered", f"{first_bad} of the form `{fm}` was entered although the call cannot bind its arguments"))
         if beh in ("notCallable", "nonIterable", "hasNonVar"):
             if res[0] != "err" or res[1] != "TypeError":
                 got = res[1] if res[0] == "err" else "no exception"
@@ -920,7 +968,11 @@ def model_request(case, steps):
     cbs = {}
     for role, i in cb_ids(case).items():
         c = case["cbs"][role]
-        cbs[role] = {"id": i, "beh": c["beh"], "n": c.get("n", 0)}
+        cbs[role] = {"id": i, "beh": "vars" if c["beh"] == "badArity" else c["beh"], "n": c.get("n", 0)}
+        if c.get("form"):
+            from harness import lib_c19forms as forms
+
+            cbs[role]["sig"] = forms.sig_of(c["form"], cb_nargs(case, role))
         if c["beh"] == "hasNonVar":
             cbs[role]["elems"] = elem_kinds(c)
     return {
@@ -1021,6 +1073,8 @@ def finish_case(case, rng, container=None):
         case["opcont"] = "tuple"
     if ctor != "if_" and "dupvar" not in case and rng.random() < 0.15:
         case["dupvar"] = True
+    if "kwcall" not in case and rng.random() < 0.15:
+        case["kwcall"] = True
     if ctor != "if_" and "rel" not in case:
         case["rel"] = rng.choice(RELATIONS) if rng.random() < 0.6 else "same"
     cont = container or rng.choice(CONTAINERS_MAIN)
@@ -1029,6 +1083,14 @@ def finish_case(case, rng, container=None):
         case["cbs"] = {"else_branch": good_cb(n, cont, n), "then_branch": good_cb(n, cont, n)}
     else:
         case["cbs"] = {"body": good_cb(natural_count(ctor, case), cont)}
+    # the callback as a lambda with defaults, functools.partial, bound method, callable instance, ... (accepted forms)
+    if rng.random() < 0.15 and prescription(case) is not None:
+        from harness import lib_c19forms as forms
+
+        for role in case["cbs"]:
+            fm = rng.choice(forms.ACCEPTED)
+            if forms.applicable(fm, cb_nargs(case, role)):
+                case["cbs"][role]["form"] = fm
     return case
 
 
@@ -1225,6 +1287,34 @@ def gen_cases(ck, info):
             for n in range(0, 3):
                 if light or ic != "arg":
                     cases.append(finish_case({"mod": mod, "ctor": "if_", "n_if": n, "if_cond": ic}, rng))
+    # ---- every callable FORM x constructor x shipped module (accepted forms and forms Python's call rejects)
+    from harness import lib_c19forms as forms
+
+    base_f = [c for c in cases if prescription(c) is not None and all_good(c) and not c.get("same_cb") and "repeat" not in c
+              and c.get("rel", "same") in ("same", "identity") and not any(cb.get("form") for cb in c["cbs"].values())]
+    for ctor_ in CTORS:
+        for mod in allmods.get(ctor_, []):
+            sub = [c for c in base_f if c["ctor"] == ctor_ and c["mod"] == mod]
+            if not sub:
+                continue
+            for fm in forms.ACCEPTED + forms.REJECTED:
+                for _try in range(6):
+                    c = dict(rng.choice(sub))
+                    roles = list(c["cbs"])
+                    r = rng.choice(roles)
+                    if forms.applicable(fm, cb_nargs(c, r)):
+                        break
+                else:
+                    continue
+                cbs = {r2: dict(c["cbs"][r2]) for r2 in roles}
+                cbs[r]["form"] = fm
+                if fm in forms.REJECTED:
+                    cbs[r]["beh"] = "badArity"
+                elif ctor_ == "if_" and rng.random() < 0.5:  # both branches in (different) forms
+                    r3 = [x for x in roles if x != r][0]
+                    cbs[r3]["form"] = rng.choice([f for f in forms.ACCEPTED if forms.applicable(f, 0)])
+                c["cbs"] = cbs
+                cases.append(c)
     # ---- every element type the installed onnx defines (pass-through positions must keep the dtype)
     for dt in all_dtypes():
         t1, t2 = T(dt, (2,)), T(dt, (2, 3))
@@ -1275,6 +1365,8 @@ def gen_cases(ck, info):
         for _ in range(ck.pick(6, 40)):
             c = dict(rng.choice(sub))
             c["repeat"] = rng.choice([2, 2, 3])
+            # (a memoising callable answers a repeated call from its cache: its body is legitimately not re-entered)
+            c["cbs"] = {r_: (dict(cb_, form="exact_def") if cb_.get("form") == "lru_cache" else cb_) for r_, cb_ in c["cbs"].items()}
             cases.append(c)
     for mod in defs.get("if_", []):
         for n in range(1, 3):
@@ -1306,8 +1398,11 @@ def gen_cases(ck, info):
         sub = [c for c in sub if natural_count(c["ctor"], c) >= 3] or sub
         if not sub:
             continue
+        # full sweeps in the first defining module of the constructor (and everywhere in the thorough tier); the
+        # other modules run the same `subgraph()`: every bad element once, one malformed result per setting
+        full_sweep = ck.thorough or mod_ctor[0] == (defs0.get(mod_ctor[1]) or [mod_ctor[0]])[0]
         for bad in BAD_ELEMS:
-            for pos in range(3):
+            for pos in (range(3) if full_sweep else [rng.randrange(3)]):
                 c = dict(rng.choice(sub))
                 roles = list(c["cbs"])
                 cbs = {r2: dict(c["cbs"][r2]) for r2 in roles}
@@ -1318,7 +1413,8 @@ def gen_cases(ck, info):
                 cases.append(c)
         # the verdict on a malformed result must not depend on the scoped settings in force at the call
         for amb in AMBIENTS[1:]:
-            for bad in ["int", "float", "none", "str", "listOfVars", "tupleOfVars", "emptyList"]:
+            bads_ = ["int", "float", "none", "str", "listOfVars", "tupleOfVars", "emptyList"]
+            for bad in (bads_ if full_sweep else [rng.choice(bads_)]):
                 c = dict(rng.choice(sub))
                 roles = list(c["cbs"])
                 cbs = {r2: dict(c["cbs"][r2]) for r2 in roles}
@@ -1328,7 +1424,7 @@ def gen_cases(ck, info):
                 c["cbs"] = cbs
                 c["ambient"] = amb
                 cases.append(c)
-            for variant in range(7):  # bare scalars / None / a single Var / 0-d array / bytes / str as the whole result
+            for variant in (range(7) if full_sweep else [rng.randrange(7)]):  # bare scalars / None / a Var / 0-d array / bytes / str
                 c = dict(rng.choice(sub))
                 roles = list(c["cbs"])
                 cbs = {r2: dict(c["cbs"][r2]) for r2 in roles}
@@ -1342,6 +1438,12 @@ def gen_cases(ck, info):
                 c = dict(rng.choice(sub))
                 c["cbs"] = {r2: dict(c["cbs"][r2], container=cont) for r2 in c["cbs"]}
                 cases.append(c)
+    # a memoising callable answers a second call with equal arguments from its cache (its body is legitimately not
+    # re-entered): where one callable object is called more than once, use the plain form
+    for c in cases:
+        if c.get("repeat", 1) > 1 or c.get("same_cb"):
+            if any(cb.get("form") == "lru_cache" for cb in c["cbs"].values()):
+                c["cbs"] = {r_: (dict(cb_, form="exact_def") if cb_.get("form") == "lru_cache" else cb_) for r_, cb_ in c["cbs"].items()}
     return cases
 
 
@@ -1632,6 +1734,15 @@ def direct_cases(ck):
     for _ in range(ck.pick(30, 300)):
         tys = [rng.choice(POOL + EXTRA_TYPES) for _ in range(rng.randrange(0, 6))]
         out.append({"kind": "direct", "types": rng.choice(DIRECT_OK), "tys": tys, "cb": dict(rng.choice(cbs))})
+    from harness import lib_c19forms as forms
+
+    for tys in lists[:3]:
+        for fm in forms.ACCEPTED + forms.REJECTED:
+            if forms.applicable(fm, len(tys)):
+                cb = dict(cbs[0], form=fm)
+                if fm in forms.REJECTED:
+                    cb["beh"] = "badArity"
+                out.append({"kind": "direct", "types": rng.choice(DIRECT_OK), "tys": tys, "cb": cb})
     return out
 
 
@@ -1652,7 +1763,7 @@ def run_direct_case(env: Env, case):
     rec, counters = [], {}
     fake = {"ctor": "loop", "cbs": {"body": case["cb"]}, "lists": {"v_initial": []}, "k_extra": 0, "rel": "same"}
     fun = make_callback(env, op, "loop", fake, "body", rec, counters)
-    if case["cb"]["beh"] in ("vars", "hasNonVar"):
+    if case["cb"]["beh"] in ("vars", "hasNonVar", "badArity"):
         n = case["cb"]["n"]
         inner = fun
 
@@ -1669,6 +1780,10 @@ def run_direct_case(env: Env, case):
             return tuple(vs) if cont == "tuple" else ((v for v in vs) if cont == "gen" else vs)
 
         del inner
+    if case["cb"].get("form"):
+        from harness import lib_c19forms as forms
+
+        fun = forms.make_form(case["cb"]["form"], fun, len(ts))
     obs = {"events": [], "fresh": True, "unnamed": True}
     try:
         with warnings.catch_warnings():
@@ -1700,6 +1815,23 @@ def judge_direct(case, obs):
     if case["types"] not in DIRECT_OK:
         return bad  # malformed `types`: nothing is prescribed for the callback (model correspondence only)
     want = case["tys"]
+    fm = case["cb"].get("form")
+    if fm:
+        from harness import lib_c19forms as forms
+
+        acc = forms.python_accepts(fm, len(want))
+        if not acc:
+            if not (res[0] == "err" and res[1] == "TypeError"):
+                bad.append((f"subgraph:direct:callback-form:{fm}:{res[1] if res[0] == 'err' else 'no exception'}",
+                            f"a callback of the form `{fm}` cannot take {len(want)} arguments: expected TypeError, got {res[:2]}"))
+            if obs["count"]:
+                bad.append((f"subgraph:direct:callback-form:{fm}:entered", f"callback of the form `{fm}` entered"))
+            return bad
+        if res[0] == "err" and obs["count"] == 0:
+            bad.append((f"subgraph:direct:callback-form:{fm}:rejected:{res[1]}",
+                        f"subgraph(types, fun): a valid callback of the form `{fm}` ({len(want)} arguments) was rejected with {res[1]}: {res[2]}"))
+            return bad
+        beh = "vars"
     if obs["count"] > 1 or (beh != "notCallable" and obs["count"] != 1):
         bad.append((f"subgraph:direct:count={obs['count']}", f"subgraph(types, fun) invoked fun {obs['count']} times"))
     for types in obs["events"]:
@@ -1721,7 +1853,11 @@ def judge_direct(case, obs):
 
 def direct_request(case):
     kind = "ok" if case["types"] in DIRECT_OK else DIRECT_BAD[case["types"]]
-    cb = {"id": 0, "beh": case["cb"]["beh"], "n": case["cb"].get("n", 0)}
+    cb = {"id": 0, "beh": "vars" if case["cb"]["beh"] == "badArity" else case["cb"]["beh"], "n": case["cb"].get("n", 0)}
+    if case["cb"].get("form"):
+        from harness import lib_c19forms as forms
+
+        cb["sig"] = forms.sig_of(case["cb"]["form"], len(case["tys"]))
     return {"direct": {"types": kind, "tys": case["tys"] if kind == "ok" else [], "cb": cb}}
 
 
@@ -1954,7 +2090,7 @@ def _run(ck: core.Check, env: Env, info):
         nops = sum(len(v) for v in case.get("lists", {}).values())
         key = (case["mod"], case["ctor"], repr(case.get("lists")), repr(case.get("singles")), repr(case.get("ints")),
                repr(case.get("axes")), repr(case.get("scan_attrs")), case.get("rel"), case.get("ambient"),
-               case.get("M"), repr(case.get("cond")), case.get("if_cond"), case.get("opcont"), case.get("dupvar"), repr(sorted((r, c["beh"], c.get("n")) for r, c in case["cbs"].items())))
+               case.get("M"), repr(case.get("cond")), case.get("if_cond"), case.get("opcont"), case.get("dupvar"), case.get("kwcall"), repr(sorted((r, c["beh"], c.get("n"), c.get("form")) for r, c in case["cbs"].items())))
         ck.count(key if (nops >= 1 or not all_good(case)) else None)
         stats["ctor"][case["ctor"]] = stats["ctor"].get(case["ctor"], 0) + 1
         stats["stage"][obs["stage"]] = stats["stage"].get(obs["stage"], 0) + 1
@@ -1977,6 +2113,8 @@ def _run(ck: core.Check, env: Env, info):
             if c["beh"] == "hasNonVar":
                 bk = c.get("bad", "scalar")
                 stats.setdefault("bad_elements", {})[bk] = stats.setdefault("bad_elements", {}).get(bk, 0) + 1
+            if c.get("form"):
+                stats.setdefault("forms", {})[c["form"]] = stats.setdefault("forms", {}).get(c["form"], 0) + 1
             if c["beh"] == "vars":
                 stats["containers"][c.get("container")] = stats["containers"].get(c.get("container"), 0) + 1
         if len(ck.samples) < 4 and nops >= 2:
